@@ -118,6 +118,28 @@ def task_params(p, tier, seed):
             part.record(Q("unsat" if ok else "sat", None, 0.0, ""), f"{key_base}: set_params({fld}=v) changes exactly that configuration field")
             if not ok:
                 viol(f"set-{fld}", f"set_params({fld}=...) : field set={ok_field}, other fields unchanged={ok_others}, top-level unchanged={ok_top}")
+        # several configuration fields in ONE call: every one of them lands (this is how a grid search drives it)
+        import itertools as _it
+
+        for f1, f2 in _it.permutations(fields, 2):
+            ad4 = sym_adapter(p, env, pn, sn, k=SymReal(z3.Real("k0")))
+            b = dict(ad4.get_params())
+            ad4.set_params(**{f1: new_vals[f1], f2: new_vals[f2]})
+            a = dict(ad4.get_params())
+            ok = same_value(getattr(a["config"], f1), new_vals[f1]) and same_value(getattr(a["config"], f2), new_vals[f2]) and all(same_value(getattr(a["config"], f3), getattr(b["config"], f3)) for f3 in fields if f3 not in (f1, f2)) and all(a[k_] is b[k_] for k_ in TOP if k_ != "config")
+            part.record(Q("unsat" if ok else "sat", None, 0.0, ""), f"{key_base}: set_params({f1}=v1, {f2}=v2) in one call sets both fields and nothing else")
+            if not ok:
+                viol(f"set-two-fields", f"set_params({f1}=..., {f2}=...) in one call: config is {a['config']}")
+                break
+        # a top-level parameter and a configuration field in one call
+        ad5 = sym_adapter(p, env, pn, sn, k=SymReal(z3.Real("k0")))
+        newpn = {st_: SymReal(z3.Real(f"newpn_{i}")) for i, st_ in enumerate(ad5.get_params()["process_noise"])}
+        ad5.set_params(process_noise=newpn, max_dt_sec=new_vals["max_dt_sec"])
+        a = ad5.get_params()
+        ok = a["process_noise"] is newpn and same_value(a["config"].max_dt_sec, new_vals["max_dt_sec"])
+        part.record(Q("unsat" if ok else "sat", None, 0.0, ""), f"{key_base}: set_params(process_noise=..., max_dt_sec=...) in one call sets both")
+        if not ok:
+            viol("set-top-and-field", "set_params(process_noise=..., max_dt_sec=...) in one call lost one of them")
         # unknown names are refused
         for bad in ("max_dt", "innovation_filter", "process_noises", "Config", "sensor_noise", "configs"):
             ad3 = sym_adapter(p, env, pn, sn, k=None)
@@ -145,7 +167,7 @@ def flat_positions(p):
     return pos
 
 
-def task_fit(p, tier, seed):
+def task_fit(p, tier, seed, nondefault_config=False):
     part = Part()
     part.program(p.id)
     part.fn("python.SklearnEKFAdapter.fit", "python.SklearnEKFAdapter._flatten_scoring_params", "python.SklearnEKFAdapter._inverse_flatten_scoring_params", "python.nearest_positive_definite", "python.SklearnEKFAdapter.score", "python.SklearnEKFAdapter.set_params")
@@ -161,8 +183,8 @@ def task_fit(p, tier, seed):
     succ = z3.Bool("opt_success")
     assumes = pyh.noise_positive(pn, sn)
     tmo = tier_timeout_ms(tier)
-    key_base = f"{p.id}/fit"
-    info = {"program": p.id, "kind": "fit"}
+    key_base = f"{p.id}/fit" + ("/nondefault-config" if nondefault_config else "")
+    info = {"program": p.id, "kind": "fit", "nondefault_config": nondefault_config}
     calls = {"n": 0}
 
     def stub(fun, x0, **kw):
@@ -179,6 +201,9 @@ def task_fit(p, tier, seed):
         with installed(extra=[(fp, "minimize", stub)]), quiet():
             # initial noise concrete (the program's numbers): the clipping max(1e-6, .) then forks only on the optimiser's x
             ad = make_adapter(p, pyh.sym_calibration_map(p, env), {c: float(p.process_noise[c]) for c in p.control}, {k_: {r: float(p.sensor_noise[k_][r]) for r in p.sensors[k_]} for k_ in p.sensors}, None)
+            if nondefault_config:
+                # an explicit configuration with every field away from its default (fit must hand back exactly this)
+                ad.set_params(config=fp.Config(common_subexpression_elimination=False, extra_validation=True, max_dt_sec=0.25, innovation_filtering=None))
             orig = dict(ad.get_params())
             x0 = list(ad._flatten_scoring_params())
             Xo = np.empty((1, W), dtype=object)
@@ -234,10 +259,11 @@ def task_fit(p, tier, seed):
             continue
         now = ad.get_params()
         ok_ret = ret is ad
-        ok_same = all(now[k_] is orig[k_] for k_ in ("symbolic_model", "sensor_models", "calibration_map", "config"))
+        orig_cfg_fields = dataclasses.asdict(orig["config"])
+        ok_same = all(now[k_] is orig[k_] for k_ in ("symbolic_model", "sensor_models", "calibration_map")) and same_value(now["config"], orig["config"]) and dataclasses.asdict(now["config"]) == orig_cfg_fields
         part.record(Q("unsat" if (ok_ret and ok_same) else "sat", None, 0.0, ""), f"{tag}: fit returns the estimator; model, sensor models, calibration and configuration are the original objects")
         if not (ok_ret and ok_same):
-            viol("non-noise-changed", f"fit changed something other than noise: returns self={ok_ret}, {[k_ for k_ in ('symbolic_model', 'sensor_models', 'calibration_map', 'config') if now[k_] is not orig[k_]]}", l)
+            viol("non-noise-changed", f"fit changed something other than noise: returns self={ok_ret}, {[k_ for k_ in ('symbolic_model', 'sensor_models', 'calibration_map') if now[k_] is not orig[k_]]}, config now {now['config']} was {orig_cfg_fields}", l)
         # process noise: exactly the control symbols; value == max(1e-6, x_i) at the control's sorted position; > 0
         pnow = now["process_noise"]
         want_keys = {st[c] for c in p.control}
@@ -436,7 +462,7 @@ def task_flatten_roundtrip(p, tier, seed):
     return part.d
 
 
-def float_fit_check(p, xvals, success=True):
+def float_fit_check(p, xvals, success=True, nondefault_config=False):
     """Concrete replay with a concrete stub optimiser."""
     import formak.python as fp
     from formak.exceptions import MinimizationFailure
@@ -450,7 +476,10 @@ def float_fit_check(p, xvals, success=True):
     try:
         with quiet():
             ad = float_adapter(p, {})
+            if nondefault_config:
+                ad.set_params(config=fp.Config(common_subexpression_elimination=False, extra_validation=True, max_dt_sec=0.25, innovation_filtering=None))
             orig = dict(ad.get_params())
+            orig_cfg = dataclasses.asdict(orig["config"])
             rng = random.Random(0)
             X = np.array([[rng.randint(-8, 8) / 8.0 for _ in range(width(p))]])
             try:
@@ -462,9 +491,11 @@ def float_fit_check(p, xvals, success=True):
         fp.minimize = saved
     probs = []
     st = p.symtab()
-    for k_ in ("symbolic_model", "sensor_models", "calibration_map", "config"):
+    for k_ in ("symbolic_model", "sensor_models", "calibration_map"):
         if now[k_] is not orig[k_]:
             probs.append(f"{k_} changed")
+    if dataclasses.asdict(now["config"]) != orig_cfg:
+        probs.append(f"config changed: {now['config']} was {orig_cfg}")
     pos = flat_positions(p)
     if set(now["process_noise"]) != {st[c] for c in p.control}:
         probs.append("process noise keys")
@@ -497,6 +528,7 @@ def run(tier, seed):
     tasks.append((task_fit, (CP.P1(), tier, seed)))
     tasks.append((task_fit, (CP.P8(), tier, seed)))
     tasks.append((task_fit_objective_raises, (CP.P1(), tier, seed)))
+    tasks.append((task_fit, (CP.P1(), tier, seed, True)))
     if tier != "quick":
         tasks += [(task_fit, (CP.P3(), tier, seed))]
         tasks += [(task_params, (CP.P1(), tier, seed)), (task_params, (CP.P10(), tier, seed)), (task_fit, (CP.P10(), tier, seed)), (task_flatten_roundtrip, (CP.P8(), tier, seed))]
@@ -522,7 +554,7 @@ def replay(path):
         pos = flat_positions(p)
         e = r.get("inputs", {})
         xvals = [e.get(f"opt_x{i}", 0.5 + 0.25 * i) for i in range(len(pos))]
-        probs = float_fit_check(p, xvals, success=bool(e.get("opt_success", True)) if "opt_success" in e else True)
+        probs = float_fit_check(p, xvals, success=bool(e.get("opt_success", True)) if "opt_success" in e else True, nondefault_config=info.get("nondefault_config", False))
         print(probs)
         print("REPRODUCED" if probs else "not reproduced")
         return 1 if probs else 0
